@@ -91,6 +91,7 @@ def _nt(case):
 
 SUBCHECKS = [
     SubCheck("forward_exact_tm", check_position, strategy=T.geo_cases(), nontrivial=_nt, classes=T.tm_classes,
-             quick=4000, thorough=480000, shards_quick=4, shards_thorough=16,
+             quick=3000, thorough=360000, shards_quick=4, shards_thorough=16,
+             seq_groups=[["ell"], ["prj", "zone", "lon"], ["lat"], ["kind"]],
              rule="geo2grid vs exact TM (0.2 mm), automatic zone/hemisphere rules, angle objects vs decimal values"),
 ]
